@@ -803,6 +803,83 @@ impl Family for RightsEp {
     }
 }
 
+/// EPPIN: the white king, a white pawn on its 5th rank, the black pawn that has just double-stepped
+/// next to it and a black rook or queen stand on one rank in that order (so the en passant capture
+/// is pseudo-legal but uncovers the king), with any gaps; black king anywhere, up to two more black
+/// minor pieces anywhere. White to move. En passant that is illegal although the capturing pawn is
+/// not pinned, down to positions where nothing else is legal either.
+pub struct EpPin {
+    /// only kings on the a- or h-file (where the king is boxed in most easily), looking inward
+    pub edge_only: bool,
+}
+impl Family for EpPin {
+    fn name(&self) -> String {
+        if self.edge_only { "EPPIN(edge king)".into() } else { "EPPIN".into() }
+    }
+    fn len(&self) -> u64 {
+        (if self.edge_only { 2 } else { 8 * 2 }) * 6 * 2 * 5 * 2 * 64 * 3 * 64 * 3 * 64
+    }
+    fn decode(&self, mut i: u64) -> Option<Pos> {
+        let mut take = |n: u64| -> u64 {
+            let v = i % n;
+            i /= n;
+            v
+        };
+        let bk = take(64) as u8;
+        let m1k = take(3) as usize;
+        let m1 = take(64) as u8;
+        let m2k = take(3) as usize;
+        let m2 = take(64) as u8;
+        let (kf, dir) = if self.edge_only {
+            if take(2) == 0 { (0i8, 1i8) } else { (7, -1) }
+        } else {
+            (take(8) as i8, if take(2) == 0 { 1i8 } else { -1 })
+        };
+        let g1 = take(6) as i8;
+        let white_first = take(2) == 0;
+        let g2 = take(5) as i8;
+        let queen = take(2) == 0;
+        if (m1k == 0 && m1 != 0) || (m2k == 0 && m2 != 0) || (m1k != 0 && m2k != 0 && m1 >= m2) {
+            return None;
+        }
+        let row = 3i8;
+        let p1 = kf + dir * (1 + g1);
+        let p2 = p1 + dir;
+        let sl = p2 + dir * (1 + g2);
+        let (wp, bp) = if white_first { (p1, p2) } else { (p2, p1) };
+        let mut p = Pos::empty();
+        p.board[sq_at(kf, row)? as usize] = pc(WHITE, KING);
+        p.board[sq_at(wp, row)? as usize] = pc(WHITE, PAWN);
+        p.board[sq_at(bp, row)? as usize] = pc(BLACK, PAWN);
+        p.board[sq_at(sl, row)? as usize] = pc(BLACK, if queen { QUEEN } else { ROOK });
+        p.ep = sq_at(bp, 2)?;
+        let keep_free = [sq_at(bp, 2)?, sq_at(bp, 1)?];
+        let mut placed: Vec<(u8, u8)> = vec![(bk, pc(BLACK, KING))];
+        if m1k != 0 {
+            placed.push((m1, pc(BLACK, [KNIGHT, BISHOP][m1k - 1])));
+        }
+        if m2k != 0 {
+            placed.push((m2, pc(BLACK, [KNIGHT, BISHOP][m2k - 1])));
+        }
+        for (sq, piece) in placed {
+            if p.board[sq as usize] != EMPTY || keep_free.contains(&sq) {
+                return None;
+            }
+            // nothing may stand between the king and the slider except the two pawns
+            if row_of(sq) == row && (file_of(sq) - kf) * dir > 0 && (file_of(sq) - sl) * dir < 0 {
+                return None;
+            }
+            p.board[sq as usize] = piece;
+        }
+        p.stm = WHITE;
+        if p.is_legal_position() {
+            Some(p)
+        } else {
+            None
+        }
+    }
+}
+
 /// PAWN7: a white pawn on its 7th rank (every file), both kings, one further white piece and one
 /// black piece (every pair of kinds from Q R B N) anywhere, both sides to move: promotions and
 /// under-promotions with something to lose or to win on the way.
